@@ -23,7 +23,7 @@ cat jqh.cases extra.cases > all.cases
 "$JQH" jqh.cases > go.out
 ./extra extra.cases >> go.out
 awk -v n="$JOBS" '{ print > ("chunk." (NR % n)) }' all.cases
-for f in chunk.*; do ( ulimit -s unlimited 2>/dev/null; ./driver "$f" > "out.$f" ) & done
+for f in chunk.*; do ( ulimit -s unlimited 2>/dev/null; timeout 3000 ./driver "$f" > "out.$f" ) & done
 wait
 cat out.chunk.* > model.out
 python3 gen.py cmp all.cases go.out model.out
